@@ -21,10 +21,29 @@ def isClose (c a : Num) : Bool :=
   | _, .nan => false
   | _, _ => true
 
-def dataOf (g : GridOf Num) : Cell → Option Num := fun c =>
-  match g.data.getD (c.1 * g.w + c.2) .nan with
-  | .nan => none
-  | v => some v
+/-- distinct non-NaN values of a raster (in order of first occurrence) -/
+def distinctVals (vals : Array Num) : Array Num :=
+  vals.foldl (fun acc v => match v with
+    | .nan => acc
+    | _ => if acc.contains v then acc else acc.push v) #[]
+
+/-- The model is generic in the value type and the closeness test.  The driver runs it on value
+    *indices* with the closeness test tabulated once per request (the rational arithmetic of
+    `isClose` would otherwise dominate the run time): cell value = index into `distinct`,
+    `m i j = isClose distinct[i] distinct[j]`. -/
+def tabulate (vals : Array Num) : (Nat → Option Nat) × (Nat → Nat → Bool) :=
+  let ds := distinctVals vals
+  let k := ds.size
+  let table : Array Bool := Id.run do
+    let mut t := Array.mkEmpty (k * k)
+    for c in ds do
+      for a in ds do
+        t := t.push (isClose c a)
+    return t
+  let idx : Array (Option Nat) := vals.map fun v => match v with
+    | .nan => none
+    | _ => ds.idxOf? v
+  (fun i => (idx.getD i none), fun c a => table.getD (c * k + a) false)
 
 def showLab : Option Nat → String
   | none => "nan"
@@ -35,7 +54,8 @@ def cmdRegions (a : Args) : String := Id.run do
   let some n := a.int? "n" | return "bad-args n"
   let some g := a.get? "g" >>= parseGrid parseNum | return "bad-args g"
   if n ≠ 4 ∧ n ≠ 8 then return "err:ValueError"
-  let labs := regionsList g.h g.w (n == 8) isClose (dataOf g)
+  let (idx, m) := tabulate g.data
+  let labs := regionsList g.h g.w (n == 8) m (fun c => idx (c.1 * g.w + c.2))
   return s!"{g.h}x{g.w}:" ++ ",".intercalate (labs.map showLab)
 
 /-- `regions_enum rows=R cols=C n=4|8 alphabet=v,v,... from=T0 count=K`: the labelling of raster
@@ -61,8 +81,8 @@ def cmdRegionsEnum (a : Args) : String := Id.run do
     for _ in [0:rows * cols] do
       digs := digs.push (al.getD (r % k) .nan)
       r := r / k
-    let g : GridOf Num := ⟨rows, cols, digs⟩
-    for l in regionsList rows cols (n == 8) isClose (dataOf g) do
+    let (idx, m) := tabulate digs
+    for l in regionsList rows cols (n == 8) m (fun c => idx (c.1 * cols + c.2)) do
       out := out.push (match l with | none => "0" | some v => toString v)
   return ",".intercalate out.toList
 
